@@ -39,6 +39,10 @@ pub struct SDesc {
     /// exists, instead of writing the struct's fields
     #[serde(default)]
     pub via_builders: bool,
+    /// register the for-all derives and attributes AFTER the per-type ones (the resulting sets are
+    /// the same; what a registration sees of the others is not)
+    #[serde(default)]
+    pub globals_last: bool,
 }
 
 pub const LSB0_TARGET: &str = "::vrt::bits::Lsb0";
@@ -63,6 +67,7 @@ impl Default for SDesc {
             ],
             register_via: 0,
             via_builders: false,
+            globals_last: false,
         }
     }
 }
@@ -107,8 +112,10 @@ impl SDesc {
     /// inserted (validation is a separate property).
     pub fn build(&self) -> TypeGeneratorSettings {
         let mut derives = DerivesRegistry::new();
-        derives.add_derives_for_all(self.global_derives.iter().map(|d| p(d)));
-        derives.add_attributes_for_all(self.global_attrs.iter().map(|a| attr(a)));
+        if !self.globals_last {
+            derives.add_derives_for_all(self.global_derives.iter().map(|d| p(d)));
+            derives.add_attributes_for_all(self.global_attrs.iter().map(|a| attr(a)));
+        }
         for s in &self.specific {
             let tp: syn::TypePath = syn::parse_str(&s.path).unwrap();
             if !s.derives.is_empty() {
@@ -117,6 +124,10 @@ impl SDesc {
             if !s.attrs.is_empty() {
                 derives.add_attributes_for(tp.clone(), s.attrs.iter().map(|a| attr(a)), s.recursive);
             }
+        }
+        if self.globals_last {
+            derives.add_derives_for_all(self.global_derives.iter().map(|d| p(d)));
+            derives.add_attributes_for_all(self.global_attrs.iter().map(|a| attr(a)));
         }
         let mut substitutes = TypeSubstitutes::new();
         // a repeated source path (last one wins under insert/extend) keeps the plain `insert`
